@@ -1,4 +1,4 @@
-"""C16 -- files survive rope byte-for-byte apart from the intended edit (clauses R16.1-R16.6)."""
+"""C16 -- files survive rope byte-for-byte apart from the intended edit (clauses R16.1-R16.7)."""
 from __future__ import annotations
 
 import ast
@@ -51,6 +51,7 @@ def _chooser(fn, idx, modname):
 def check(ctx, res) -> None:
     _check_main(ctx, res)
     undo_newline_rule(ctx, res, "R16.6")
+    module_header_rule(ctx, res, "R16.7")
 
 
 def _check_main(ctx, res) -> None:
@@ -296,3 +297,39 @@ def undo_newline_rule(ctx, res, rule: str) -> None:
                 "the convention of the replaced text cannot be detected any more, and a CRLF (or CR) file comes back with LF after undo",
                 function=undo.qualname)
     res.floor(rule, "changes whose undo writes text", n, 1)
+
+
+def module_header_rule(ctx, res, rule: str) -> None:
+    """R16.7 (shared with C05): the shebang and the coding line are facts about the MODULE.  Where a refactoring cuts a
+    definition out together with the comment lines above it, the absorption of comment lines stops at those two lines:
+    the loop's test (or a helper it calls) distinguishes them (it mentions the shebang marker or the word 'coding')."""
+    idx = ctx.idx
+    f = idx.need_func("rope.refactor.move.MoveGlobal._get_moving_region")
+    loops = [w for w in walk_local(f.node) if isinstance(w, ast.While) and
+             (any(isinstance(y, ast.Constant) and y.value == "#" for y in ast.walk(w.test)) or
+              any(isinstance(c, ast.Call) and is_self_attr(c.func) and "comment" in c.func.attr for c in ast.walk(w.test)))]
+    if not loops:
+        raise AnalysisError("anchor=MoveGlobal._get_moving_region: loop absorbing the comment lines above the definition not found")
+
+    def distinguishes(node, depth=0) -> bool:
+        for y in ast.walk(node):
+            if isinstance(y, ast.Constant) and isinstance(y.value, str) and ("coding" in y.value or y.value.startswith("#!")):
+                return True
+            if isinstance(y, ast.Call) and depth < 2:
+                g = None
+                if is_self_attr(y.func) and f.cls is not None:
+                    g = idx.find_method(f.cls.qualname, y.func.attr)
+                else:
+                    q = idx.resolve(f.unit.modname, y.func)
+                    g = idx.functions.get(q) if q else None
+                if g is not None and distinguishes(g.node, depth + 1):
+                    return True
+        return False
+
+    for k, w in enumerate(loops, 1):
+        ok = distinguishes(w.test)
+        res.add(rule, f"MoveGlobal._get_moving_region|header-lines#{k}", ok, f"{f.unit.rel}:{w.lineno}",
+                "comment absorption stops at the shebang / coding line" if ok else
+                "MoveGlobal takes every comment line directly above the definition along with it, the module's coding line included when the definition "
+                "follows it: the cookie ends up in the destination and the source module, now without it, is rewritten as UTF-8 although it was latin-1",
+                function=f.qualname)
